@@ -66,7 +66,11 @@ CLAIMS = {
              "exactly the read-after-write positions (reads t, no earlier write of t) with the producer's tag; no_edge_past_kill, "
              "findDepending_forward (edges point forward), edge_weight_spec, flags_ignored_without_option. Tie: register tables from "
              "the parser sources (C12) + create_DG of the real code vs DG.create edge by edge with weights; oracle: declarative "
-             "Spec.rawEdges vs the implementation's edges.",
+             "Spec.rawEdges vs the implementation's edges, a curated vocabulary of real instructions with architectural roles, and a "
+             "synthetic ISA database with random roles. The role assignment itself is inside the model (Props/C03Roles, 65 theorems: "
+             "roles_spec, roles_partition, defaults per ISA, zero idiom, write-back, has_load/store_iff, op_*: the translated "
+             "operation mini-programs compute dst = src +/- imm for all immediates), ISA databases and operation strings regenerated "
+             "from the YAML, tied per instruction to semantic_operands / flags / get_reg_changes of the real code.",
         design="5/C03", note=COMMON_NOTE + "Modelled not verified: networkx path search (replaced by the model's own enumeration), the parsers and the role assignment (taken from the implementation per kernel: the model consumes the implementation's semantic operands, latencies and register changes). Graph level: edges_iff_raw, create_edges_subset (last emission wins), edges_forward, create_iff_raw (kernels without stores).",
         technique="Lean 4 proof (induction over the scan) + differential correspondence of the dependency graph",
     ),
